@@ -23,6 +23,9 @@ from ..cfg import must_facts, holds, canon_fact
 from ..rules import settle_sites, check_settles, event_facts, node_assigns, is_none, is_true, is_false, require_after
 from ..mutate import mutate, remove_stmts, replace_expr, replace_stmt, parse_stmt, parse_expr
 from ..model import AnalysisError
+from ..x_syncnorm import normalized
+
+NORM_MODULES = ("tornado/locks.py", "tornado/queues.py", "tornado/gen.py", "tornado/concurrent.py", "tornado/ioloop.py", "tornado/platform/asyncio.py")
 from ..x_sync import check_none_tests, own_walk, node_counts, method_call_on, exit_states, own_find, own_settle_sites, check_outcome_reads, handler_catches_cancel
 
 TECHNIQUE = "who-may-call lint, handler-structure (exception-escape) rules, exit-state typestate, settle-discipline, dispatch-table extraction"
@@ -405,6 +408,7 @@ def check_convert(ck):
 
 
 def run(ck):
+    ck.repo = normalized(ck.repo, NORM_MODULES)  # alias / named-boolean / temporary / setter-helper normalisation (vt/x_syncnorm.py)
     ck.rule("C37.ctx-run", "user code (func, next, gen.send/throw, Runner.run, handle_yield at construction) is entered only through ctx_run = copy_context().run")
     ck.rule("C37.outcome", "every advance is covered by a StopIteration/Return handler producing the result from the exception value and by an Exception handler storing the error in the result future")
     ck.rule("C37.wrapper-ts", "the decorator wrapper returns its fresh result future on every path, settled exactly once or handed to exactly one Runner")
